@@ -269,7 +269,7 @@ def inventory_trees(lang='en', everything=False):
     return out
 
 
-def long_trees(lang='en'):
+def long_trees(lang='en', sizes=(11, 12, 13)):
     """a few deep shapes with 11-13 leaves (two-digit offsets): left-branching, right-branching, balanced; head directions alternate"""
     cats = ARB_CATS if lang == 'en' else ARB_JA_CATS
     labels = ARB_LABELS if lang == 'en' else ARB_JA_LABELS
@@ -308,7 +308,7 @@ def long_trees(lang='en'):
             r = bal(k - k // 2)
             return node(l, r)
         return bal(n)
-    for n in (11, 12, 13):
+    for n in sizes:
         for shape in ('left', 'right', 'balanced'):
             out.append(build(shape, n))
     return out
